@@ -6,7 +6,7 @@ from tie import framework as fw
 from tie.framework import g_bool, g_list, g_opt, g_pair, g_str, g_Z
 
 PROP = "C11"
-IMPORTS = "From JV Require Import Lib.Base Model.Ns Model.NsRun Spec.NestedDict Spec.NestedDictRun Gen.C11Clash Corr.C11Judge."
+IMPORTS = "From JV Require Import Lib.Base Model.Ns Model.NsRun Model.NsGuard Spec.NestedDict Spec.NestedDictRun Gen.C11Clash Corr.C11Judge."
 RULE = ("histories of Namespace operations {set, setattr, get, get-default, contains, del, pop, update(value), update(ns), "
         "update(only_unset), clone, items/keys/values(branches), as_dict, Namespace(dict)} starting from an empty namespace; "
         "keys of depth 1-3 over ordinary names and the method-name clashes; scalar/None/list/tuple/dict/namespace values. "
